@@ -212,13 +212,17 @@ class ExecGen:
         idx = nxt if r.random() < 0.8 else max(0, nxt + r.choice([-1, 1, 2]))
         T = r.choice([0, 1, 2, 2, 3, 3, 4, 10, -1])
         x = "" if r.random() < 0.93 else " " + r.choice(["x:bf", "x:junk", "x:ok"])
+        # now and then the request carries a Group (between two hubs it is begun one-to-one all the same)
+        grp = "-" if r.random() < 0.85 else f"{t}={idx}" + ("" if r.random() < 0.5 else f",{r.choice(self.REMOTE + SERVICES)}=1")
+        if grp != "-":
+            self.tags.add("hub:request:with-group")
         tid = ibtp_id(f, t, idx)
         if idx == nxt and pk in ("ok", "msig2", "msig3") and not (f.count(":") == 1 and pk != "ok") and not (f.count(":") == 2 and pk == "ok"):
             self.hub_next[(f, t)] = idx + 1
             self.hub_open.append([f, t, idx, T])
         self.ids.append(tid)
         self.tags.add("hub:request:" + ("out" if f.count(":") == 1 else "in"))
-        return f"ibtp {signer} {f} {t} {idx} req {T} - {pk}{x}"
+        return f"ibtp {signer} {f} {t} {idx} req {T} {grp} {pk}{x}"
 
     def tx_xfer(self):
         r = self.rng
